@@ -46,8 +46,8 @@ def _clean(ex, s):
     ex.counts['R2-errortrait'] = ex.counts.get('R2-errortrait', 0) + n
     s = s.replace('impl core::error::Error for Error {}', '')
     # R4: panicking assertions become proof obligations
-    s = _sub(ex, 'R4', r'assert_eq!\(([^,;]+), ([^,;]+), "[^"]*"\);', r'crate::vassert(\1 == \2);', s)
-    s = _sub(ex, 'R4', r'assert!\(([^;]+?), "[^"]*"\);', r'crate::vassert(\1);', s)
+    s = _sub(ex, 'R4', r'assert_eq!\(\s*([^,;]+?),\s*([^,;]+?),\s*"[^"]*",?\s*\);', r'crate::vassert(\1 == \2);', s)
+    s = _sub(ex, 'R4', r'assert!\(\s*([^;]+?),\s*"[^"]*",?\s*\);', r'crate::vassert(\1);', s)
     # R5 / R6: foreign crates
     s = _sub(ex, 'R6', r'(?m)^use rand_core::.*;\n', '', s)
     s = _sub(ex, 'R6', r'(?m)^use subtle::.*;\n', '', s)
@@ -224,7 +224,7 @@ fn message_vec_fn(token_groups: &[&[Token]]) -> MessagePatterns {
     # ---- builder ----
     b = _clean(ex, rd('builder.rs'))
     b = _sub(ex, 'R2-keypair-eq', r'(?ms)^impl PartialEq for Keypair \{.*?^}\n', '', b, expect=1)
-    b = _sub(ex, 'R11-params', r'fn resolve_kem\(_: Box<dyn CryptoResolver>, _: &mut HandshakeState\)',
+    b = _sub(ex, 'R11-params', r'fn resolve_kem\(\s*_: Box<dyn CryptoResolver>,\s*_: &mut HandshakeState,?\s*\)',
              'fn resolve_kem(_a0: Box<dyn CryptoResolver>, _a1: &mut HandshakeState)', b)
     # R9 / R11-params are rewrites inside one function body: when the code there has been rewritten the rule simply does
     # not apply (if what replaced it is outside Verus' reach, that one function is isolated by the checker, not the crate)
@@ -234,8 +234,8 @@ fn message_vec_fn(token_groups: &[&[Token]]) -> MessagePatterns {
     def r10(mo):
         head, body = mo.group(1), mo.group(2)
         ex.counts['R10'] = ex.counts.get('R10', 0) + 1
-        return head.replace('(mut self', '(self') + ' {\n        let mut this = self;' + re.sub(r'\bself\b', 'this', body) + '\n    }\n'
-    b = re.sub(r'(?ms)^(    pub fn \w+\(mut self[^{]*?) \{(.*?)\n    \}\n', r10, b)
+        return re.sub(r'\(\s*mut self', '(self', head, count=1) + ' {\n        let mut this = self;' + re.sub(r'\bself\b', 'this', body) + '\n    }\n'
+    b = re.sub(r'(?ms)^(    pub fn \w+\(\s*mut self[^{]*?) \{(.*?)\n    \}\n', r10, b)
     b = _pub_fields(ex, b)
     out.append(_wrap('builder', b, 'builder.rs'))
     ex.modules.append(('builder', 'builder.rs'))
